@@ -47,7 +47,7 @@ __gmp_doprnt_integer (const struct doprnt_funs_t *funs,
 {
   int         retval = 0;
   int         slen, justlen, showbaselen, sign, signlen, slashlen, zeros;
-  int         justify, den_showbaselen;
+  int         justify, den_showbaselen, fill;
   const char  *slash, *showbase;
 
   /* '+' or ' ' if wanted, and don't already have '-' */
@@ -99,11 +99,20 @@ __gmp_doprnt_integer (const struct doprnt_funs_t *funs,
     - (strlen(s) + signlen + showbaselen + den_showbaselen + zeros);
 
   justify = p->justify;
+  fill = p->fill;
+  /* C99: if a precision is specified, the 0 flag is ignored for the integer
+     conversions */
+  if (p->prec >= 0 && fill == '0' && slash == NULL)
+    {
+      fill = ' ';
+      if (justify == DOPRNT_JUSTIFY_INTERNAL)
+        justify = DOPRNT_JUSTIFY_RIGHT;
+    }
   if (justlen <= 0) /* no justifying if exceed width */
     justify = DOPRNT_JUSTIFY_NONE;
 
   if (justify == DOPRNT_JUSTIFY_RIGHT)             /* pad right */
-    DOPRNT_REPS (p->fill, justlen);
+    DOPRNT_REPS (fill, justlen);
 
   DOPRNT_REPS_MAYBE (sign, signlen);               /* sign */
 
@@ -112,7 +121,7 @@ __gmp_doprnt_integer (const struct doprnt_funs_t *funs,
   DOPRNT_REPS_MAYBE ('0', zeros);                  /* zeros */
 
   if (justify == DOPRNT_JUSTIFY_INTERNAL)          /* pad internal */
-    DOPRNT_REPS (p->fill, justlen);
+    DOPRNT_REPS (fill, justlen);
 
   /* if there's a showbase on the denominator, then print the numerator
      separately so it can be inserted */
@@ -129,7 +138,7 @@ __gmp_doprnt_integer (const struct doprnt_funs_t *funs,
   DOPRNT_MEMORY (s, slen);                         /* number, or denominator */
 
   if (justify == DOPRNT_JUSTIFY_LEFT)              /* pad left */
-    DOPRNT_REPS (p->fill, justlen);
+    DOPRNT_REPS (fill, justlen);
 
  done:
   return retval;
